@@ -1,0 +1,36 @@
+//go:build verif
+
+package deployment
+
+import (
+	"context"
+
+	apps "k8s.io/api/apps/v1"
+	clientset "k8s.io/client-go/kubernetes"
+	appslisters "k8s.io/client-go/listers/apps/v1"
+	"k8s.io/client-go/tools/record"
+)
+
+// Verification hooks (build tag `verif` only): thin exported wrappers around the
+// unexported controller factory and sync entry point. No behaviour of their own.
+
+// VerifNewController builds the per-deployment controller exactly as
+// ReconcileDeployment.Reconcile does (controllerFactory.NewController: parses the
+// rollouts.kruise.io/deployment-strategy annotation; nil when the deployment is
+// not under rollout control).
+func VerifNewController(client clientset.Interface, recorder record.EventRecorder,
+	dLister appslisters.DeploymentLister, rsLister appslisters.ReplicaSetLister,
+	d *apps.Deployment) *DeploymentController {
+	f := &controllerFactory{
+		client:        client,
+		eventRecorder: recorder,
+		dLister:       dLister,
+		rsLister:      rsLister,
+	}
+	return f.NewController(d)
+}
+
+// VerifSyncDeployment runs one syncDeployment.
+func (dc *DeploymentController) VerifSyncDeployment(ctx context.Context, d *apps.Deployment) error {
+	return dc.syncDeployment(ctx, d)
+}
